@@ -850,7 +850,12 @@ def matrix_inverse_pth_root(
   if matrix_size == 1:
     damped_matrix = matrix + ridge_epsilon
     resultant_mat_h = damped_matrix**alpha
-    error = jnp.array(0, jnp.float32)
+    # Report the same residual as the iterative branch, max |X^p (A + dI) - I|,
+    # so that a non-finite or overflowing 1x1 statistic is rejected by the
+    # caller instead of being stored with a reported error of zero.
+    error = jnp.max(
+        jnp.abs(jnp.power(resultant_mat_h, p) * damped_matrix -
+                identity)).astype(jnp.float32)
     iters = 0
     error_ratio = 0.0
     total_retries = 0
